@@ -123,7 +123,7 @@ pub fn wider_texts() -> Vec<(&'static str, String)> {
         "a;", "r;", "q[0];", "q[0:1];", "m[{0, 1}];", "m[0][1];", "a[0];", "f1;", "g1;", "pi;", "U;",
         "f1(a, b);", "f1(a);", "f1();", "f1(a, b, c);", "nosuch(1);", "nosuch();", "a(1);", "r(1);", "g1(1);", "3(1);", "f1(f1(a, b), c);",
         "g1 r;", "g1 a;", "g1 nosuch;", "nosuch r;", "a r;", "f1 r;", "h r, r;", "h;", "rx r;", "rx(1, 2) r;", "U r;", "h q;", "cx q, r;",
-        "OPENQASM 3.0;", "OPENQASM 3;", "OPENQASM 2.0;", "include \"stdgates.inc\";", "inv @ h;", "pow(2) @ h;", "ctrl @ x;", "negctrl(2) @ inv @ x;", "inv @ nosuch;", "inv @ a;", "rx(0.5);", "gphase(0.5);", "gphase(a);", "gphase();", "inv @ gphase(0.5);", "pow(2) @ inv @ h r;", "ctrl(a) @ x q[0], q[1];", "negctrl @ x r, q[0];", "pow(r) @ h r;",
+        "include \"./stdgates.inc\";", "include \"qelib/stdgates.inc\";", "include \"nosuch.inc\";", "include \"nosuch.inc\"; include \"nosuch2.inc\";", "OPENQASM 3.0;", "OPENQASM 3;", "OPENQASM 2.0;", "include \"stdgates.inc\";", "inv @ h;", "pow(2) @ h;", "ctrl @ x;", "negctrl(2) @ inv @ x;", "inv @ nosuch;", "inv @ a;", "rx(0.5);", "gphase(0.5);", "gphase(a);", "gphase();", "inv @ gphase(0.5);", "pow(2) @ inv @ h r;", "ctrl(a) @ x q[0], q[1];", "negctrl @ x r, q[0];", "pow(r) @ h r;",
         "barrier;", "barrier a;", "barrier nosuch;", "reset a;", "reset nosuch;", "reset q;", "delay[a] r;", "delay[1] r;", "delay[d];", "delay[nosuch] r;", "delay[10ns] a;",
         "measure a;", "measure nosuch;", "measure q[0:1];", "a = measure r;", "m = measure r;", "k = measure q;", "bit[2] w1 = measure q;",
         "int[8] w1 = 1; int[8] w1 = 2;", "const int w1 = 1; const int w1 = 2;", "const int w1 = 1; w1 = 2;", "const int w1; ", "const int w1 = a;",
